@@ -103,6 +103,12 @@ func (c *Conn) ReadFrom(r io.Reader) (int64, error) {
 // Close closes the connection.
 // Any blocked Read or Write operations will be unblocked and return errors.
 func (c *Conn) Close() error {
+	// Stop the drain goroutines of the buckets that were created for this connection.
+	for _, bs := range c.LocalBuckets {
+		bs.ReadBucket.Close()
+		bs.WriteBucket.Close()
+	}
+
 	return c.conn.Close()
 }
 
